@@ -36,13 +36,13 @@ def partialset(t, order=1, mask=None, bounds=None):
     max_order = max(order)
 
     def diff(core, n):
-        if core.shape[1] == 1:
+        if core.shape[-2] == 1:
             raise ValueError(
                 "Tensor size {} along dimension {} not enough to compute high-order derivative".format(
                     t.shape[n], n
                 )
             )
-        step = (bounds[n][1] - bounds[n][0]) / (core.shape[-2] - 1)
+        step = (bounds[n][1] - bounds[n][0]) / (t.shape[n] - 1)
         return (core[..., 1:, :] - core[..., :-1, :]) / step
 
     cores = []
@@ -51,7 +51,10 @@ def partialset(t, order=1, mask=None, bounds=None):
         if t.Us[n] is None:
             stack = [t.cores[n]]
         else:
-            stack = [torch.einsum("ijk,aj->iak", (t.cores[n], t.Us[n]))]
+            if t.cores[n].dim() == 3:
+                stack = [torch.einsum("ijk,aj->iak", (t.cores[n], t.Us[n]))]
+            else:
+                stack = [torch.einsum("jk,aj->ak", (t.cores[n], t.Us[n]))]
         idx = torch.zeros([t.shape[n]])
         for o in range(1, max_order + 1):
             stack.append(diff(stack[-1], n))
